@@ -520,6 +520,13 @@ pub fn run_op(op: &str, a: &[Tok]) -> String {
                 t => format!("unknown-type:{t}"),
             }
         }
+        "skenum_from_le" => {
+            let o: Option<SecretKeyEnum> = SecretKeyEnum::from_le_bytes(a[0].bytes()).into();
+            match o {
+                Some(k) => format!("some:{}", hex::encode(k.to_le_bytes())),
+                None => "none".into(),
+            }
+        }
         "skenum_from_be" => {
             let o: Option<SecretKeyEnum> = SecretKeyEnum::from_be_bytes(a[0].bytes()).into();
             match o {
